@@ -391,25 +391,26 @@ def make_other(cfg):
     import rl4co.envs as E
 
     name = cfg["env"]
+    kw = dict(_torchrl_mode=True) if cfg.get("torchrl") else {}
     if name == "fjsp":
         gp = dict(num_jobs=cfg["jobs"], num_machines=cfg["mas"], min_ops_per_job=cfg["min_ops"], max_ops_per_job=cfg["max_ops"], max_processing_time=cfg.get("pmax", 9))
-        return E.FJSPEnv(generator_params=gp, mask_no_ops=cfg["mask_no_ops"])
+        return E.FJSPEnv(generator_params=gp, mask_no_ops=cfg["mask_no_ops"], **kw)
     if name == "jssp":
         gp = dict(num_jobs=cfg["jobs"], num_machines=cfg["mas"], max_processing_time=cfg.get("pmax", 9), one2one_ma_map=cfg["one2one"])
         if not cfg["one2one"]:
             gp.update(min_ops_per_job=cfg["min_ops"], max_ops_per_job=cfg["max_ops"])
-        return E.JSSPEnv(generator_params=gp, mask_no_ops=cfg["mask_no_ops"])
+        return E.JSSPEnv(generator_params=gp, mask_no_ops=cfg["mask_no_ops"], **kw)
     if name == "ffsp":
-        return E.FFSPEnv(generator_params=dict(num_stage=cfg["stages"], num_machine=cfg["mas"], num_job=cfg["jobs"], flatten_stages=cfg["flatten"], min_time=1, max_time=cfg.get("tmax", 6)))
+        return E.FFSPEnv(generator_params=dict(num_stage=cfg["stages"], num_machine=cfg["mas"], num_job=cfg["jobs"], flatten_stages=cfg["flatten"], min_time=1, max_time=cfg.get("tmax", 6)), **kw)
     if name == "smtwtp":
-        return E.SMTWTPEnv(generator_params=dict(num_job=cfg["n"]))
+        return E.SMTWTPEnv(generator_params=dict(num_job=cfg["n"]), **kw)
     if name == "flp":
         gp = dict(num_loc=cfg["n"], to_choose=cfg["k"])
         if cfg.get("dist") == "normal":  # coordinates outside the nominal [min_loc, max_loc] box (documented sampler option)
             gp.update(loc_distribution="normal", loc_mean=0.5, loc_std=cfg.get("std", 1.0))
-        return E.FLPEnv(generator_params=gp)
+        return E.FLPEnv(generator_params=gp, **kw)
     if name == "mcp":
-        return E.MCPEnv(generator_params=dict(num_items=cfg["items"], num_sets=cfg["n"], n_sets_to_choose=cfg["k"], min_size=cfg.get("min_size", 2), max_size=cfg.get("max_size", 4)))
+        return E.MCPEnv(generator_params=dict(num_items=cfg["items"], num_sets=cfg["n"], n_sets_to_choose=cfg["k"], min_size=cfg.get("min_size", 2), max_size=cfg.get("max_size", 4)), **kw)
     if name == "dpp":
         gp = dict(data_dir=dpp_data_dir(cfg["size"]), chip_file="chip.npy", decap_file="decap.npy", freq_file="freq.npy",
                   num_keepout_min=cfg["kmin"], num_keepout_max=cfg["kmax"], max_decaps=cfg["decaps"])
